@@ -83,3 +83,23 @@ def first_event(res, name):
         if e.get('ev') == name:
             return e
     return None
+
+
+def at_of(trace, k):
+    """Location+occurrence address of the recorded event with index k."""
+    tgt = None
+    for e in trace:
+        if e.get('i') == k:
+            tgt = e
+            break
+    if tgt is None:
+        return None
+    occ = 0
+    for e in trace:
+        if 'file' not in e:
+            continue
+        if (e['kind'], e['file'], e['func'], e['line'], e.get('x')) == (tgt['kind'], tgt['file'], tgt['func'], tgt['line'], tgt.get('x')):
+            occ += 1
+        if e['i'] == k:
+            break
+    return dict(kind=tgt['kind'], file=tgt['file'], func=tgt['func'], line=tgt['line'], x=tgt.get('x'), occ=occ)
